@@ -49,7 +49,8 @@ BOUNDS = {
              "2-d: all triangulations of the square [0,2]^2 with <= 2 extra points of {edge midpoints, centre} in the xy-plane, with <= 1 extra point "
              "for the stretched lattice (2->3) and the embeddings {plane normal (1,2,2), skew plane normal (1,-1,1)}; L-polygon with <= 1 extra point "
              "for (identity, xy), (identity, normal (1,2,2)), (stretched, skew)",
-    "thorough": "1-d as quick; 2-d: square with <= 3 extra points, L-polygon with <= 2 extra points, both stretches x all three embeddings",
+    "thorough": "(both tiers: 1-d embeddings also {x-axis shifted to 1024 with cells 2^-7/6, (1,2,2) x 1024}; 2-d xy-plane also shifted to (1024,-2048) with "
+                "lattice spacing 2^-7 and magnified x 1024, tolerances relative to coordinate magnitude / cell size; four sharp embedded pairs) 1-d as quick; 2-d: square with <= 3 extra points, L-polygon with <= 2 extra points, both stretches x all three embeddings",
 }
 MIN_CLASSES = 6
 CHUNK = 2
@@ -77,6 +78,9 @@ LINE_EMBED = [
     ("122", (1.0, -2.0, 3.0), (1.0, 2.0, 2.0), False),
     ("z", (0.0, 1.0, 0.0), (0.0, 0.0, -2.0), False),
     ("x-rev", (0.0, 0.0, 0.0), (1.0, 0.0, 0.0), True),
+    # scale / translation axis (tolerances below are relative to cell size and coordinate magnitude)
+    ("x-small-shift", (1024.0, 0.0, 0.0), (2.0**-7, 0.0, 0.0), False),
+    ("122-big", (0.0, 0.0, 0.0), (1024.0, 2048.0, 2048.0), False),
 ]
 NL = 6
 
@@ -100,17 +104,22 @@ PLANE_EMBED = [
     ("xy", (0.0, 0.0, 0.0), (1.0, 0.0, 0.0), (0.0, 1.0, 0.0)),
     ("n122", (1.0, 1.0, 0.0), (2.0, -1.0, 0.0), (2.0, 4.0, -5.0)),
     ("skew", (0.0, 2.0, 0.0), (1.0, 1.0, 0.0), (0.0, 1.0, 1.0)),
+    # scale / translation axis, in the xy-plane with exactly representable coordinates
+    ("xy-shift-small", (1024.0, -2048.0, 0.0), (2.0**-7, 0.0, 0.0), (0.0, 2.0**-7, 0.0)),
+    ("xy-big", (0.0, 0.0, 0.0), (1024.0, 0.0, 0.0), (0.0, 1024.0, 0.0)),
 ]
 
 
 def _combos(tier):
     """(domain, stretch, embedding index, maximal number of extra points)."""
     if tier == "thorough":
-        return [(d, s, e, {"square": 3, "L": 2}[d]) for d in DOMAINS for s in STRETCH for e in range(len(PLANE_EMBED))]
+        return [(d, s, e, {"square": 3, "L": 2}[d]) for d in DOMAINS for s in STRETCH for e in range(3)] \
+            + [("square", s, e, 2) for s in STRETCH for e in (3, 4)]
     out = []
     for s in STRETCH:
-        for e in range(len(PLANE_EMBED)):
+        for e in range(3):
             out.append(("square", s, e, 2 if (s, e) == ("id", 0) else 1))
+    out += [("square", "id", 3, 1), ("square", "s3", 4, 1)]
     out += [("L", "id", 0, 1), ("L", "id", 1, 1), ("L", "s3", 2, 1)]
     return out
 
@@ -163,7 +172,7 @@ def cases(tier):
 # ------------------------------------------------------------------ shared checks
 
 
-def _check_overlaps(out, name, got, exact, meas_a, meas_b, scale, detail):
+def _check_overlaps(out, name, got, exact, meas_a, meas_b, scale, cond=1.0):
     """got: list of (i, j, w). exact: dict (i, j) -> Fraction (> 0 only). Returns error or None."""
     seen = {}
     for (i, j, w) in got:
@@ -174,7 +183,7 @@ def _check_overlaps(out, name, got, exact, meas_a, meas_b, scale, detail):
         if not w >= 0.0:
             return f"{name}: negative / nan overlap {w} for pair ({i},{j})"
         ex = float(exact.get((i, j), 0)) * scale
-        if abs(w - ex) > TOL * scale * float(sum(meas_a)):
+        if abs(w - ex) > TOL * cond * scale * float(sum(meas_a)):
             return f"{name}: overlap of pair ({i},{j}) is {w}, exact {ex}"
     for (i, j), ex in exact.items():
         if (i, j) not in seen:
@@ -182,16 +191,16 @@ def _check_overlaps(out, name, got, exact, meas_a, meas_b, scale, detail):
     tot = float(sum(meas_a)) * scale
     for i, m in enumerate(meas_a):
         s = sum(w for (a, b), w in seen.items() if a == i)
-        if abs(s - float(m) * scale) > TOL * tot:
+        if abs(s - float(m) * scale) > TOL * cond * tot:
             return f"{name}: overlaps of cell {i} of the first tessellation sum to {s}, its measure is {float(m) * scale}"
     for j, m in enumerate(meas_b):
         s = sum(w for (a, b), w in seen.items() if b == j)
-        if abs(s - float(m) * scale) > TOL * tot:
+        if abs(s - float(m) * scale) > TOL * cond * tot:
             return f"{name}: overlaps of cell {j} of the second tessellation sum to {s}, its measure is {float(m) * scale}"
     return None
 
 
-def _check_match(out, name, fn, g_new, g_old, exact, meas_new, meas_old):
+def _check_match(out, name, fn, g_new, g_old, exact, meas_new, meas_old, cond=1.0):
     """averaged rows sum to 1 and equal overlap/|new cell|; integrated columns sum to 1 and equal
     overlap/|old cell|; None = indicator of positive overlap. Returns a list of
     (message, detail) with one entry per failing scaling; detail carries the matrix returned."""
@@ -212,13 +221,13 @@ def _check_match(out, name, fn, g_new, g_old, exact, meas_new, meas_old):
         for (i, j), ex in exact.items():
             E[i, j] = float(ex / meas_new[i]) if scaling == "averaged" else float(ex / meas_old[j]) if scaling == "integrated" else 1.0
         det["exact_matrix"] = E
-        if scaling == "averaged" and np.abs(A.sum(axis=1) - 1.0).max() > TOL * 10:
+        if scaling == "averaged" and np.abs(A.sum(axis=1) - 1.0).max() > TOL * 10 * cond:
             fails.append((f"{name}(averaged): row sums {A.sum(axis=1).tolist()} are not one", det))
-        elif scaling == "integrated" and np.abs(A.sum(axis=0) - 1.0).max() > TOL * 10:
+        elif scaling == "integrated" and np.abs(A.sum(axis=0) - 1.0).max() > TOL * 10 * cond:
             fails.append((f"{name}(integrated): column sums {A.sum(axis=0).tolist()} are not one", det))
         elif not np.all(A >= 0):
             fails.append((f"{name}(scaling={scaling}): negative entry", det))
-        elif np.abs(A - E).max() > TOL * 10:
+        elif np.abs(A - E).max() > TOL * 10 * cond:
             i, j = np.unravel_index(np.argmax(np.abs(A - E)), A.shape)
             fails.append((f"{name}(scaling={scaling}): entry ({i},{j}) is {A[i, j]}, exact {E[i, j]}", det))
     return fails
@@ -245,6 +254,8 @@ def _run_line(case, out: Outcome):
 
     name, origin, direction, rev_b = LINE_EMBED[case["embed"]]
     length = float(np.linalg.norm(direction))
+    # conditioning of the input: coordinate magnitude relative to the smallest cell
+    cond = 1.0 + float(np.abs(origin).max()) / (length / NL)
     na = _nodes_1d(case["a"])
     ga = _grid_1d(na, origin, direction, False)
     cells_a = [(F(na[i], NL), F(na[i + 1], NL)) for i in range(len(na) - 1)]
@@ -271,15 +282,21 @@ def _run_line(case, out: Outcome):
         lb = np.array([[i, i + 1] for i in range(len(nb) - 1)]).T
         bad = None
         try:
-            got = line_tessellation(ga.nodes.copy(), gb.nodes.copy(), la, lb)
-            bad = _check_overlaps(out, "line_tessellation", got, exact, meas_a, meas_b, length, None)
+            pa_, pb_ = ga.nodes.copy(), gb.nodes.copy()
+            got = line_tessellation(pa_, pb_, la, lb)
+            bad = _check_overlaps(out, "line_tessellation", got, exact, meas_a, meas_b, length, cond)
+            if bad is None and not (np.array_equal(pa_, ga.nodes) and np.array_equal(pb_, gb.nodes)):
+                bad = "line_tessellation modified its point arrays"
             nzero = sum(1 for g_ in got if float(g_[2]) <= TOL)
         except Exception as e:
             bad = f"line_tessellation raised {e!r}"
             nzero = 0
         if bad is None:
-            fails = _check_match(out, "match_1d", match_1d, ga, gb, exact, meas_a, meas_b)
+            na0, nb0 = ga.nodes.copy(), gb.nodes.copy()
+            fails = _check_match(out, "match_1d", match_1d, ga, gb, exact, meas_a, meas_b, cond)
             bad = fails[0][0] if fails else None
+            if bad is None and not (np.array_equal(na0, ga.nodes) and np.array_equal(nb0, gb.nodes)):
+                bad = "match_1d modified the nodes of a grid"
         if bad:
             _viol(out, bad, "other", embedding=name, nodes_a=(np.array(na) / NL), nodes_b=(np.array(nb) / NL), origin=origin, direction=direction,
                         b_reversed=rev_b)
@@ -330,6 +347,7 @@ def _run_tri(case, out: Outcome):
     plane = PLANE_EMBED[case["embed"]]
     _, o, u, v = plane
     jac = float(np.linalg.norm(np.cross(np.array(u), np.array(v))))
+    cond = 1.0 + float(np.abs(o).max()) / min(float(np.linalg.norm(u)), float(np.linalg.norm(v)))
     pts_a, tri_a = tess[case["a"]]
     fa = [[T._f2(pts_a[k]) for k in t] for t in tri_a]
     area_a = [T.tri_area(t) for t in fa]
@@ -357,7 +375,9 @@ def _run_tri(case, out: Outcome):
                 p1 = np.array(pts_a, dtype=float).T.copy()
                 p2 = np.array(pts_b, dtype=float).T.copy()
                 got = triangulations(p1, p2, np.array(tri_a, dtype=int).T.copy(), np.array(tri_b, dtype=int).T.copy())
-                bad = _check_overlaps(out, "triangulations", got, exact, area_a, area_b, 1.0, None)
+                bad = _check_overlaps(out, "triangulations", got, exact, area_a, area_b, 1.0)
+                if bad is None and not (np.array_equal(p1, np.array(pts_a, dtype=float).T) and np.array_equal(p2, np.array(pts_b, dtype=float).T)):
+                    bad = "triangulations modified its point arrays"
                 ntouch = sum(1 for g_ in got if float(g_[2]) <= TOL)
             except Exception as e:
                 bad = f"triangulations raised {e!r}"
@@ -380,7 +400,10 @@ def _run_tri(case, out: Outcome):
         # cell volumes of the grids must be the exact areas times the Jacobian (harness sanity)
         if np.abs(ga.cell_volumes - np.array([float(area_a[i]) for i in ia]) * jac).max() > 1e-10 * jac:
             raise AssertionError("harness: embedded grid has unexpected cell volumes")
-        mfails = _check_match(out, "match_2d", match_2d, ga, gb, ex_g, [area_a[i] for i in ia], [area_b[j] for j in ib])
+        na0, nb0 = ga.nodes.copy(), gb.nodes.copy()
+        mfails = _check_match(out, "match_2d", match_2d, ga, gb, ex_g, [area_a[i] for i in ia], [area_b[j] for j in ib], cond)
+        if not (np.array_equal(na0, ga.nodes) and np.array_equal(nb0, gb.nodes)):
+            bads.append("match_2d modified the nodes of a grid")
         common = dict(domain=case["domain"], stretch=case["stretch"], embedding=plane[0], points_a=pts_a, triangles_a=tri_a,
                       points_b=pts_b, triangles_b=tri_b)
         if bads or mfails:
@@ -500,7 +523,7 @@ def known_finding(case, viol):
     same mechanism (one triangle contained in the other with boundary contact, overlap reported
     as 0) yields KNOWN_GEOS_CONTAINED; it only counts if that key is registered."""
     try:
-        if not case or case.get("kind") not in ("tri", "tri_pair") or PLANE_EMBED[case["embed"]][0] == "xy":
+        if not case or case.get("kind") not in ("tri", "tri_pair") or PLANE_EMBED[case["embed"]][0] not in ("n122", "skew"):
             return None
         what = viol.get("what", "")
         if not what.startswith("match_2d(") or "raised" in what or "got_matrix" not in viol:
